@@ -268,7 +268,7 @@ def generate(cls, rng):
                       for _ in range(rng.randrange(1, DP.pick(7, 14)))]
                      for _ in range(rng.choice(DP.pick([1, 2, 2, 3],
                                                        [2, 3, 4, 4])))]
-    kind = rng.choice(["random", "random", "pb", "pct"])
+    kind = rng.choice(["random", "random", "pb", "pct", "pbx", "pbx"])
     if rng.random() < 0.4:
         # cold start: every thread's first query races on components whose
         # recurrence caches are still empty and complete within one fill
@@ -288,6 +288,8 @@ def generate(cls, rng):
         strat = dict(kind="random", p=rng.choice([0.05, 0.2, 0.5, 1.0]))
     elif kind == "random":
         strat = dict(kind="random", p=rng.choice([0.005, 0.02, 0.1, 1.0]))
+    elif kind == "pbx":
+        strat = dict(kind="pbx", k=rng.choice([1, 1, 2, 3]))
     elif kind == "pb":
         strat = dict(kind="pb", k=rng.choice([0, 1, 2, 3]),
                      horizon=rng.choice([500, 3000, 15000]))
